@@ -320,6 +320,62 @@ def tla_trace(kind, mode, ops, old=""):
     return {"kind": kind, "mode": mode, "ops": out, "old": [[code, 0, 1]] if old else []}
 
 
+def logger_fields(rep, tier):
+    """LoggerFields.tla: every history of add_field / remove_fields calls enumerated by TLC is replayed on a real
+    Logger; the header must name, and a row must hold a value of, exactly the columns the specification expects."""
+    from quansino.io.logger import Logger
+
+    env = {"LOGF_LEN": "5"} if tier == "thorough" else {}
+    r = run_tlc("LoggerFields", "MC_LoggerFields.cfg", workers=1, env=env, timeout=1500)
+    if not r.ok:
+        if r.invariant_violated or r.property_violated:
+            rep.violation(f"model:logger:{(r.invariant_violated or ['LOG_ReplaceKeepsPosition'])[0]}", "TLC: LoggerFields.tla violated", {"tlc": r.out[-2000:]})
+        else:
+            rep.error(f"TLC failed on LoggerFields: {r.out[-1200:]}")
+        return 0, 0
+    n = 0
+    for line in r.out.splitlines():
+        line = line.strip()
+        if not line.startswith('"@@'):
+            continue
+        case = json.loads(json.loads(line)[2:])
+        n += 1
+        buf = io.StringIO()
+        lg = Logger(buf, 1)
+        ver = 0
+        try:
+            for op, arg in case["hist"]:
+                if op == "add":
+                    ver += 1
+                    if arg["arr"]:
+                        names = list(arg["n"]) if ver % 2 else tuple(arg["n"])
+                        lg.add_field(names, (lambda v=ver, k=len(arg["n"]): [10.0 * v + i + 1 for i in range(k)]), " ".join(["{:8.1f}"] * len(arg["n"])), is_array=True)
+                    else:
+                        lg.add_field(arg["n"][0], (lambda v=ver: 10.0 * v + 1), "{:8.1f}")
+                else:
+                    lg.remove_fields(arg)
+            lg.write_header()
+            lg()
+        except Exception as ex:  # noqa: BLE001
+            rep.violation(f"logger-fields:raise:{type(ex).__name__}", f"configuring a logger with {case['hist']} and writing header + row raised {ex!r}", {"case": case})
+            continue
+        lines = buf.getvalue().split("\n")
+        want_h = [c["name"] for c in case["columns"]]
+        want_r = [10.0 * c["ver"] + c["comp"] for c in case["columns"]]
+        got_h = lines[0].split()
+        try:
+            got_r = [float(x) for x in lines[1].split()]
+        except Exception:  # noqa: BLE001
+            got_r = None
+        if n % 1000 == 1:
+            rep.sample({"logger_history": case["hist"], "expected_columns": want_h})
+        rep.count(("logger-fields", len(case["hist"]), len(want_h)), nontrivial=len(case["hist"]) > 1)
+        if len(lines) != 3 or lines[2] != "" or got_h != want_h or got_r != want_r:
+            what = "header" if got_h != want_h else "row"
+            rep.violation(f"logger-fields:{what}", f"after {case['hist']} the logger writes header {got_h} and row {got_r}; the specification says columns {want_h} with values {want_r}", {"case": case, "text": buf.getvalue()})
+    return r.distinct, n
+
+
 def observer_ownership(rep, tier):
     """Observers.tla: every action sequence (attach / detach / re-assign file / close observer / close manager)
     enumerated by TLC is replayed on real TextObserver / ObserverManager objects; handle states must match."""
@@ -603,6 +659,9 @@ def run(tier: str) -> int:
     states += so
     trans += to
     rep.add(observer_ownership_sequences=nobs)
+    sl, nl = logger_fields(rep, tier)
+    states += sl
+    rep.add(logger_field_histories=nl)
     rep.add(states=states, transitions=trans, traces_validated_against_impl=len(recs), evaluations=ncrash + nkill, file_operations_recorded=nops, crash_contents_judged=ncrash, real_crashes=nkill, exhaustive=True,
             rule="crash points: between every two consecutive file operations (write / flush / seek / truncate) of every Logger, TrajectoryObserver and RestartObserver call of grand-canonical runs whose serialized state grows and shrinks, modes 'a' and 'w'; for each crash point every prefix of the unflushed buffer (chunk boundaries and three byte offsets inside each chunk) is a surviving content; distinct = (file kind, mode, seed) logs + real kills; each content is judged by the real readers, the op logs by TLC (Files_Trace.tla), and sampled crash points by real forked processes dying before the operation")
     rep.assumptions += ["CPython may flush its buffer at any time, never reorders: survivors = disk + a prefix of the buffer", "observers receive user-owned handles on real files (the documented IO argument); handles are opened with default buffering",
